@@ -169,6 +169,16 @@ func fcost(k int, name string) uint64 {
 	}
 	panic("unknown cost " + name)
 }
+// fcostOf maps a function name to its flat price under schedule k (tight-gas calls only use flat-priced functions).
+func fcostOf(fn string, k int) uint64 {
+	switch fn {
+	case "ESDTLocalMint":
+		return fcost(k, "ESDTLocalMint")
+	case "ESDTNFTAddQuantity":
+		return fcost(k, "ESDTNFTAddQuantity")
+	}
+	return 0
+}
 func storePB(k int) uint64   { return uint64(10 + k) }
 func persistPB(k int) uint64 { return uint64(40 + k) }
 func copyPB(k int) uint64    { return uint64(70 + k) }
@@ -199,6 +209,8 @@ func scAddr(t int, shard byte) []byte {
 }
 
 type execRec struct {
+	gas      uint64
+	created  string
 	fn       string
 	invoke   int64
 	ret      int64
@@ -280,9 +292,20 @@ func runExec(seed int64, r *rand.Rand, stay int, replay []uint8) runResult {
 	for t := range seedsForArgs {
 		seedsForArgs[t] = r.Int63()
 	}
+	// tightGas[t] > 0: the next call of task t is given exactly that much gas (the flat price of its
+	// function under one of the schedules), so that an execution admitted by one schedule and charged
+	// by another shows as gas out of nothing
+	tightGas := make([]uint64, ntasks)
+	noTight := false
 	call := func(t int, fn string, caller, rcv []byte, args [][]byte, snd, dst vmcommon.UserAccountHandler, charge func(k int, out *vmcommon.VMOutput) uint64) execRec {
 		rec := execRec{fn: fn}
-		in := &vmcommon.ContractCallInput{VMInput: vmcommon.VMInput{CallerAddr: caller, Arguments: args, CallValue: big.NewInt(0), GasProvided: gasGiven}, RecipientAddr: rcv, Function: fn}
+		gas := gasGiven
+		if tightGas[t] > 0 && !noTight {
+			gas = tightGas[t]
+		}
+		tightGas[t] = 0
+		rec.gas = gas
+		in := &vmcommon.ContractCallInput{VMInput: vmcommon.VMInput{CallerAddr: caller, Arguments: args, CallValue: big.NewInt(0), GasProvided: gas}, RecipientAddr: rcv, Function: fn}
 		rec.invoke = simrt.Stamp()
 		bf, err := cont.Get(fn)
 		if err != nil {
@@ -302,7 +325,10 @@ func runExec(seed int64, r *rand.Rand, stay int, replay []uint8) runResult {
 				fwd += ot.GasLimit
 			}
 		}
-		rec.observed = gasGiven - out.GasRemaining - fwd
+		if out.GasRemaining > gas || fwd > gas-out.GasRemaining {
+			rec.created = fmt.Sprintf("GasRemaining %d + forwarded %d with %d provided", out.GasRemaining, fwd, gas)
+		}
+		rec.observed = gas - out.GasRemaining - fwd
 		rec.charge = func(k int) uint64 { return charge(k, out) }
 		return rec
 	}
@@ -438,6 +464,9 @@ func runExec(seed int64, r *rand.Rand, stay int, replay []uint8) runResult {
 				return fcost(k, "ESDTNFTUpdateAttributes") + storePB(k)*l
 			}), true
 		case "mint":
+			if ar.Intn(3) == 0 {
+				tightGas[t] = fcost(ar.Intn(K+1), "ESDTLocalMint")
+			}
 			return call(t, "ESDTLocalMint", st.user, st.user, [][]byte{tokF, {7}}, u, u, func(k int, _ *vmcommon.VMOutput) uint64 { return fcost(k, "ESDTLocalMint") }), true
 		case "lburn":
 			return call(t, "ESDTLocalBurn", st.user, st.user, [][]byte{tokF, {1}}, u, u, func(k int, _ *vmcommon.VMOutput) uint64 { return fcost(k, "ESDTLocalBurn") }), true
@@ -454,6 +483,9 @@ func runExec(seed int64, r *rand.Rand, stay int, replay []uint8) runResult {
 				return 2*fcost(k, "ESDTNFTMultiTransfer") + copyPB(k)*payloadLen(out, 7)
 			}), true
 		case "addqty":
+			if ar.Intn(3) == 0 {
+				tightGas[t] = fcost(ar.Intn(K+1), "ESDTNFTAddQuantity")
+			}
 			return call(t, "ESDTNFTAddQuantity", st.user, st.user, [][]byte{tokN, {1}, {3}}, u, u, func(k int, _ *vmcommon.VMOutput) uint64 { return fcost(k, "ESDTNFTAddQuantity") }), true
 		case "nftburn":
 			return call(t, "ESDTNFTBurn", st.user, st.user, [][]byte{tokN, {1}, {1}}, u, u, func(k int, _ *vmcommon.VMOutput) uint64 { return fcost(k, "ESDTNFTBurn") }), true
@@ -531,10 +563,6 @@ func runExec(seed int64, r *rand.Rand, stay int, replay []uint8) runResult {
 		for _, rec := range recs[t] {
 			rr.execCalls++
 			rr.ops++
-			if rec.err != "" {
-				rr.viol = append(rr.viol, Violation{Seed: seed, Kind: "exec-failed", Detail: fmt.Sprintf("task %d: %s failed under concurrency although it succeeds sequentially: %s", t, rec.fn, rec.err)})
-				continue
-			}
 			a, b := 0, 0
 			for _, c := range changes {
 				if c.end < rec.invoke {
@@ -543,6 +571,26 @@ func runExec(seed int64, r *rand.Rand, stay int, replay []uint8) runResult {
 				if c.start < rec.ret {
 					b++
 				}
+			}
+			if rec.err != "" {
+				if strings.Contains(rec.err, "not enough gas") && rec.gas < gasGiven {
+					// a tight-gas call may be refused if a schedule in force during it prices it above the gas
+					afford := true
+					for k := a; k <= b; k++ {
+						if fcostOf(rec.fn, k) > rec.gas {
+							afford = false
+						}
+					}
+					if !afford {
+						continue
+					}
+				}
+				rr.viol = append(rr.viol, Violation{Seed: seed, Kind: "exec-failed", Detail: fmt.Sprintf("task %d: %s failed under concurrency although it succeeds sequentially: %s", t, rec.fn, rec.err)})
+				continue
+			}
+			if rec.created != "" {
+				rr.viol = append(rr.viol, Violation{Seed: seed, Kind: "gas-created", Detail: fmt.Sprintf("task %d: %s admitted under one schedule and charged under another: %s", t, rec.fn, rec.created)})
+				continue
 			}
 			if b > a {
 				rr.overlaps++
@@ -563,6 +611,7 @@ func runExec(seed int64, r *rand.Rand, stay int, replay []uint8) runResult {
 	}
 	// after the join every function is priced by the last accepted schedule
 	acc.fallback = 0
+	noTight = true
 	if nexec > 0 {
 		ar := rand.New(rand.NewSource(seed))
 		for _, op := range []string{"skv", "create", "mint", "nfttransfer"} {
